@@ -14,8 +14,8 @@ go test -vet=off -count=1 ./... 2>&1 | grep -v "^ok\|no test files" | head -5
 mv /tmp/$$.demo $demo
 echo "--- demo with change (must FAIL):"
 go test -vet=off -count=1 -run "$name" $pkg 2>&1 | tail -3
-git stash -q -- $(git diff --name-only)
+git apply -R patch.diff || { echo "patch.diff does not match the worktree"; exit 1; }
 echo "--- demo without change (must PASS):"
 go test -vet=off -count=1 -run "$name" $pkg 2>&1 | tail -2
-git stash pop -q
+git apply patch.diff
 git diff --stat | tail -1
